@@ -42,6 +42,7 @@ type OblResult struct {
 	Info2   bool    `json:"-"`
 	Output  string  `json:"-"`
 	Ground  bool    `json:"-"`
+	Query   string  `json:"-"` // the full query file (File points to the ground query when Ground is set)
 	Values  map[string]string `json:"-"`
 	vc      *FnVC
 	idx     int
@@ -313,6 +314,9 @@ func cmdCheck(args []string) int {
 	tGen := time.Since(t0).Seconds()
 
 	timeout := 10
+	if v, err := strconv.Atoi(os.Getenv("GOVC_T1")); err == nil && v > 0 {
+		timeout = v // testing aid: a short first-pass time-out exercises the second attempt
+	}
 	all := false
 	if *tier == "thorough" {
 		timeout = 60
@@ -410,6 +414,7 @@ func cmdCheck(args []string) int {
 				return
 			}
 			r.File = file
+			r.Query = file
 			if len(q) > 4<<20 {
 				r.Verdict = "too-large"
 				return
@@ -443,6 +448,44 @@ func cmdCheck(args []string) int {
 		}(r)
 	}
 	wg.Wait()
+
+	// second attempt for what is still undecided: the first pass runs up to 16 obligations at once, each racing several
+	// solver processes, so on a machine that is busy with other work a query that normally takes two seconds can run
+	// into the time-out.  Undecided obligations (no answer, or only a candidate model of the ground part) are tried
+	// again, two at a time and with three times the time-out, before anything is reported.  Solvers are sound: more
+	// time can only turn "no answer" into a definite one.
+	{
+		var again []*OblResult
+		for _, r := range results {
+			if r.Trivial || r.Cover || r.Verdict == "unsat" || r.Verdict == "too-large" || r.Verdict == "error" {
+				continue
+			}
+			if r.Verdict == "sat" && !r.Ground {
+				continue
+			}
+			again = append(again, r)
+		}
+		sem2 := make(chan struct{}, 2)
+		var wg2 sync.WaitGroup
+		for _, r := range again {
+			wg2.Add(1)
+			go func(r *OblResult) {
+				defer wg2.Done()
+				sem2 <- struct{}{}
+				defer func() { <-sem2 }()
+				file := r.Query
+				if file == "" {
+					return
+				}
+				res, _ := discharge(file, 3*timeout, seed+1, false)
+				r.Time += res.Time
+				if res.Verdict == "unsat" || res.Verdict == "sat" {
+					r.Verdict, r.Solver, r.Output, r.File, r.Ground = res.Verdict, res.Solver+"(2nd attempt)", res.Output, file, false
+				}
+			}(r)
+		}
+		wg2.Wait()
+	}
 
 	// report
 	violations := 0
